@@ -67,6 +67,12 @@ fn main() {
         })
         .collect();
     rep.push_str(&format!("env {}\n", if envs.is_empty() { "empty".to_string() } else { envs.join(",") }));
+    unsafe {
+        let p = libc::getauxval(libc::AT_EXECFN) as *const libc::c_char;
+        if !p.is_null() {
+            rep.push_str(&format!("execfn {}\n", hexenc(std::ffi::CStr::from_ptr(p).to_bytes())));
+        }
+    }
     rep.push_str(&format!(
         "cwd {}\n",
         std::env::current_dir().map(|p| hexenc(p.as_os_str().as_bytes())).unwrap_or("?".into())
